@@ -20,7 +20,7 @@ def tla_bool(b):
     return 'TRUE' if b else 'FALSE'
 
 
-def core_constants(cfg, special=()):
+def core_constants(cfg, special=(), raisers=()):
     voters = cfg.get('voters', ['a', 'b', 'c'])
     nodes = voters + cfg.get('spares', []) + cfg.get('observers', [])
     return [
@@ -33,7 +33,9 @@ def core_constants(cfg, special=()):
         'WaitLeader = %s' % tla_bool(cfg.get('wait_leader', True)),
         'QueueSize = %d' % cfg.get('queue', 100000),
         'SpecialCids = %s' % tla_set(sorted(special)),
+        'Raisers = %s' % tla_set(sorted(raisers)),
         'InitConnected = %s' % tla_bool(cfg.get('init_connected', False)),
+        'Isolated0 = %s' % tla_set(cfg.get('isolated0', [])),
         'Membership = %s' % tla_bool(cfg.get('membership', False)),
         'CompactMin = %d' % cfg.get('compact_min', 10 ** 9),
         'SnapChunk = %d' % cfg.get('snap_chunk', 2 ** 16),
@@ -121,13 +123,15 @@ def parse_verdict_line(buf):
             'names': re.findall(r'"([^"]+)"', m.group(5)), 'rel': m.group(6)}
 
 
-def special_cids(traces):
+def special_cids(traces, kinds=None):
     special = set()
     for tr in traces:
         for st in tr:
             a = st['a']
-            if a[0] == 'Submit' and len(a) > 3 and a[3].get('kind', 'op') not in ('op', 'boom', 'vop'):
-                special.add(a[2])
+            if a[0] == 'Submit' and len(a) > 3:
+                k = a[3].get('kind', 'op')
+                if (kinds is None and k not in ('op', 'boom', 'vop')) or (kinds is not None and k in kinds):
+                    special.add(a[2])
     return special
 
 
@@ -140,7 +144,7 @@ def validate_core_traces(traces, cfg, workdir, label='batch', timeout=1800):
     cf = os.path.join(workdir, label + '.cfg')
     with open(cf, 'w') as f:
         f.write('SPECIFICATION TSpec\nCONSTANTS\n')
-        for ln in core_constants(cfg, special_cids(traces)):
+        for ln in core_constants(cfg, special_cids(traces), special_cids(traces, ('boom',))):
             f.write('  ' + ln + '\n')
         f.write('CHECK_DEADLOCK FALSE\n')
     rc, out, wall = run_tlc('CoreTrace.tla', cf, workdir, env={'TRACE_FILE': tf}, workers=1, timeout=timeout)
